@@ -1601,3 +1601,39 @@ def _post_support(mon, fs, job):
 
 
 POST["support"] = _post_support
+
+
+def _post_calib(mon, fs, job):
+    """Numbers needed by the calibration check (C06)."""
+    ns = fs.ns
+    model = mon.model
+    nested = np.asarray(fs.nested_samples)
+    if job.get("ins"):
+        src = np.asarray(ns.final_samples)
+        lw = np.asarray(ns.final_log_posterior_weights, dtype=float)
+        pval = None
+    else:
+        src = nested
+        lw = np.asarray(ns.state.log_posterior_weights, dtype=float)
+        pval = ns.final_p_value
+    w = np.exp(lw - lw.max())
+    w /= w.sum()
+    ess = float(1.0 / np.sum(w ** 2))
+    means, variances = [], []
+    for n in model.names:
+        x = np.asarray(src[n], dtype=float)
+        m = float(np.sum(w * x))
+        means.append(m)
+        variances.append(float(np.sum(w * (x - m) ** 2)))
+    mon.data["calib"] = {
+        "log_evidence": float(fs.log_evidence),
+        "log_evidence_error": float(fs.log_evidence_error),
+        "true_log_evidence": float(model.true_log_evidence),
+        "ess": ess, "means": means, "variances": variances,
+        "p_value": None if pval is None else float(pval),
+        "finalised": bool(ns.finalised),
+        "iterations": int(ns.iteration),
+    }
+
+
+POST["calib"] = _post_calib
